@@ -512,6 +512,84 @@ func duplexAt(app, tgt net.Conn, kA, kB uint64, offA, offB, la, lb int64, all []
 	return first
 }
 
+// runQuiet: a logical connection that stays open and completely quiet (no byte on the whole physical
+// session) for longer than any keep-alive interval involved (the multiplexer pings every 10 s and gives up
+// after 30 s of silence), and a one-way transfer that lasts that long, must keep working: "an open connection
+// that is idle never delays the others" includes not being cut because it is idle.
+func runQuiet(rec *vcommon.Rec, carrier string, quiet time.Duration) {
+	c := map[string]interface{}{"scenario": "quiet", "carrier": carrier, "quiet_seconds": quiet.Seconds()}
+	rec.Mark(c)
+	p, err := e2e.Start(e2e.Options{Carrier: carrier, Tag: "q"})
+	if err != nil {
+		rec.Violation("quiet:"+carrier+":setup-failed", c, err.Error())
+		return
+	}
+	defer p.Close()
+	app, tgt, o, err := p.Open("echo")
+	if err != nil || o != e2e.Done {
+		rec.Inconclusive("quiet: open failed", c)
+		return
+	}
+	defer app.Close()
+	defer tgt.Close()
+	k := uint64(rec.Seed())*977 + 5
+	if f := e2e.Duplex(app, tgt, &e2e.Stream{Key: k, Len: 64}, &e2e.Stream{Key: k + 1, Len: 64}, "c2t", "t2c", nil); f != nil {
+		rec.Inconclusive("quiet: first echo failed: "+f.Kind, c)
+		return
+	}
+	// phase 1: total silence
+	time.Sleep(quiet)
+	f := e2e.Duplex(app, tgt, &e2e.Stream{Key: k + 2, Len: 64}, &e2e.Stream{Key: k + 3, Len: 64}, "c2t", "t2c", nil)
+	rec.Case("quiet/"+carrier, true)
+	rec.Seen("quiet(carrier)", carrier)
+	if f != nil && !f.Inconclusive {
+		rec.Violation("quiet:"+carrier+":idle-connection-cut:"+f.Kind, c, f.Info)
+		return
+	}
+	// phase 2: one-way trickle from the application for the same duration (nothing flows back)
+	var werr error
+	sent := int64(0)
+	chunk := make([]byte, 512)
+	rd := e2e.Go(func() {
+		buf := make([]byte, 4096)
+		got := int64(0)
+		for got < int64(quiet/(100*time.Millisecond))*512 {
+			n, err := tgt.Read(buf)
+			if n > 0 {
+				if bad := vcommon.CheckKeyed(k+9, got, buf[:n]); bad >= 0 {
+					werr = fmt.Errorf("mismatch at %d", got+int64(bad))
+					return
+				}
+				got += int64(n)
+				e2e.Bump(n)
+			}
+			if err != nil {
+				werr = fmt.Errorf("target read ended after %d bytes: %v", got, err)
+				return
+			}
+		}
+	})
+	for i := 0; i < int(quiet/(100*time.Millisecond)); i++ {
+		vcommon.FillKeyed(k+9, sent, chunk)
+		if _, err := app.Write(chunk); err != nil {
+			werr = fmt.Errorf("write failed after %d bytes: %v", sent, err)
+			break
+		}
+		sent += int64(len(chunk))
+		time.Sleep(100 * time.Millisecond)
+	}
+	if e2e.Wait(rd) == e2e.Stalled && werr == nil {
+		werr = fmt.Errorf("target stopped receiving")
+	}
+	rec.Case("quiet-oneway/"+carrier, true)
+	if werr != nil {
+		rec.Violation("quiet:"+carrier+":one-way-transfer-cut", c, werr.Error())
+		return
+	}
+	rec.Stat("quiet_connections_survived", 1)
+	rec.Stat("one_way_trickle_bytes_verified", sent)
+}
+
 func TestVerifC02(t *testing.T) {
 	e2e.Quiet()
 	rec := vcommon.Open()
@@ -560,8 +638,17 @@ func TestVerifC02(t *testing.T) {
 			items = append(items, item{"stress", c, 1})
 		}
 	}
+	if os.Getenv("VERIF_C02_NOQUIET") == "" { // the quiet scenarios only run in the plain pass (they are all waiting)
+		for _, c := range []string{"tcp", "ws", "udp", "tcp+starttls"} {
+			items = append(items, item{"quiet", c, 0})
+		}
+	}
 	for idx, it := range items {
 		if !rec.Mine(idx) {
+			continue
+		}
+		if it.Kind == "quiet" {
+			runQuiet(rec, it.Carrier, time.Duration(rec.Pick(35, 65))*time.Second)
 			continue
 		}
 		if it.Kind == "stress" {
